@@ -243,12 +243,16 @@ func (conn *Conn) send(call *Call) {
 	err := conn.codec.WriteRequest(&ctx, call.Args)
 	if err != nil {
 		conn.mutex.Lock()
+		_, registered := conn.pending[seq]
+		if conn.shutdown {
+			registered = false
+		}
 		delete(conn.pending, seq)
 		if call.upgrade.Stream == openStream {
 			delete(conn.streams, seq)
 		}
 		conn.mutex.Unlock()
-		if call != nil {
+		if call != nil && registered {
 			call.Error = err
 			call.done()
 		}
